@@ -168,6 +168,17 @@ reg("C06", [
     "induction over loop iterations is the meta-argument: base + step + exit obligations are each decided by z3",
 ])
 
+reg("C06", [
+    M("C06", "rdata_names", "rdata_ptr",
+      "for each of the 23 record types whose RDATA carries a domain name: header | question (2 labels, symbolic bytes) | record whose owner and "
+      "every RDATA name are 2-byte pointers to the question name (whole name at offset 12, and its last label at offset 15), fixed fields symbolic: "
+      "accepted, and every name in the parsed RDATA equals the designated (suffix of the) question name",
+      ["Packet::parse", "ResourceRecord::parse", "RData::parse", "typed RDATA parsers of NS..HTTPS", "<Name as WireFormat>::parse"]),
+], [
+    "pointers inside RDATA are offsets from the first byte of the message, not of the RDATA (RFC 1035 4.1.4); receivers follow pointers also in "
+    "types whose senders must not compress",
+])
+
 reg("C01", [
     M("C01", "name.step", "name_step",
       "inductive: any buffer length <= 65535, any iteration count: one iteration from any Inv-state is panic-free, "
@@ -390,7 +401,7 @@ reg("C14", [
     M("C14", "ingest", "mdns_pipeline", "5 response scenarios (A records; one with a TXT record holding an empty and a short string): answers/additional records over a pool of names with arbitrary label bytes, "
       "service / own-instance names from the same pool: no panic, and exactly the admissible records are stored as cached", _PIPE_FUNCS,
       params={'part': 'ingest'}),
-    M("C14", "reply_wire", "mdns_pipeline", "9 query scenarios against stores of 1-3 records (hostile label bytes): no panic; every Some(reply) "
+    M("C14", "reply_wire", "mdns_pipeline", "14 query scenarios against stores of 1-3 records (hostile label bytes; TXT strings of 255 / 256 bytes through the validating constructor): no panic; every Some(reply) "
       "serialises (compressed) to bytes Packet::parse accepts and that parse back to the reply", _PIPE_FUNCS, params={'part': 'reply_wire'}),
     M("C14", "key", "mdns_store", "get_key on names with arbitrary (non-UTF-8) label bytes: no panic (49 name pairs)", _MDNS_FUNCS, params={'part': 'key'}),
 ], [
